@@ -2567,6 +2567,21 @@ Proof.
   exact (cosim_terminates sc rc F Hwf eq_refl eq_refl eq_refl eq_refl eq_refl eq_refl eq_refl eq_refl f1 f2 Hn).
 Qed.
 
+Theorem below_the_limit_statement_holds :
+  forall (blk ws : N) (F : bytes) (f1 f2 : list (N * fault)), 0 < blk -> 1 <= ws <= 65535 -> nblk blk F <= 65535 ->
+  let sc := mk_scfg blk ws 1000000000 1 false [] in
+  let rc := mk_rcfg blk ws 1000000000 1 true [] in
+  (forall fuel, s_phase (p_s (pair_run sc rc f1 f2 fuel (pair_init sc rc f1 F))) <> SDone OutTimeout) ->
+  exists fuel,
+    let p := pair_run sc rc f1 f2 fuel (pair_init sc rc f1 F) in
+    r_phase (p_r p) = RDone OutOk /\ written_bytes (w_file (r_w (p_r p))) = F /\ s_phase (p_s p) = SDone OutOk.
+Proof.
+  intros blk ws F f1 f2 Hb Hw Hn sc rc Hnever.
+  destruct (any_schedule_statement_holds blk ws F f1 f2 Hb Hw Hn) as (fuel & [H|H]).
+  - exists fuel. exact H.
+  - exfalso. exact (Hnever fuel H).
+Qed.
+
 Theorem quiet_after_faults_statement_holds :
   forall (blk ws : N) (F : bytes) (f1 f2 : list (N * fault)) (fuel0 : nat),
   0 < blk -> 1 <= ws <= 65535 -> nblk blk F <= 65535 ->
